@@ -828,4 +828,10 @@ func runC09(ctx *Ctx) {
 			c.list(rev, 2)
 		}
 	}
+
+	// (4) d09: placeholder members next to lists and tuples, tuples of different lengths,
+	// nested objects with differing attribute sets, deep chains (c09_d09.go)
+	if sec("4") {
+		c09D09(c)
+	}
 }
